@@ -131,7 +131,7 @@ def run(ctx):
         for it in imp["items"]:
             if it["name"] not in ("merge", "flush"):
                 continue
-            b = F.bodies.get((AG, it["def"]))
+            b = F.bodies.get((AG, it.get("uid") or it["def"]))
             if b is None:
                 continue
             pr = Prov(b)
@@ -230,7 +230,7 @@ def run(ctx):
         if imp["crate"] != AG:
             continue
         for it in imp["items"]:
-            b = F.bodies.get((AG, it["def"]))
+            b = F.bodies.get((AG, it.get("uid") or it["def"]))
             if b and any(c.name == "merge" for c in b.calls()):
                 guards.append(b)
     ctx.floor("R10.6", "merge-on-drop destructors", len(guards), 2)
